@@ -1,5 +1,5 @@
 (** * C09 — operators derived from a user impl forward to it faithfully *)
-From DX Require Import Syntax Tables GenBound GenAttrs IR GenImpl SemImpl LemSelf.
+From DX Require Import Syntax Tables GenBound GenAttrs IR GenImpl SemImpl LemSelf LemMentions.
 
 (** what [build_by_item_impl] generates, once its inputs are in normal form *)
 Definition bin_forms (g : generics) (op : binop) (this rhs output : ty) (tr rr : bool) : list op_ir :=
@@ -111,6 +111,28 @@ Theorem C09_generics_without_Self_carry_over :
             expand_self_generics (i_self i) (i_generics i) = i_generics i.
 Proof. intros i H. apply expand_self_generics_id, H. Qed.
 
+(** the expansion is COMPLETE: whatever the user's generics said about `Self`, the generics of the derived impls - which
+    are impls for OTHER types (`&T`, the owned `T`), where `Self` would mean something else - no longer mention it, as long
+    as the self type itself does not (it cannot in a program rustc accepts: E0391); a second pass changes nothing *)
+Theorem C09_self_expansion_eliminates_Self :
+  forall i, mentions_self_ty (i_self i) = false ->
+            mentions_self_generics (expand_self_generics (i_self i) (i_generics i)) = false.
+Proof. intros i H. apply expand_self_generics_eliminates, H. Qed.
+
+Theorem C09_self_expansion_idempotent :
+  forall i, mentions_self_ty (i_self i) = false ->
+            expand_self_generics (i_self i) (expand_self_generics (i_self i) (i_generics i))
+            = expand_self_generics (i_self i) (i_generics i).
+Proof. intros i H. apply expand_self_generics_idempotent, H. Qed.
+
+Example C09_self_expansion_eliminates_Self_instance :
+  let this := TyRef (Some "a") false (TyPath None false [Seg "G" (SAAngle [GTy (ident_ty "T")])]) in
+  let g := {| g_params := [GPLt "a" []; GPTy "T" [TBTrait false false [Seg "Wt" (SAAngle [GTy self_ty_kw])]] None];
+              g_where := [WPTy (TyRef (Some "a") false self_ty_kw) [TBTrait false false [Seg "Copy" SANone]]] |} in
+  (mentions_self_ty this, mentions_self_generics g, mentions_self_generics (expand_self_generics this g))
+  = (false, true, false).
+Proof. reflexivity. Qed.
+
 (** ... and the KNOWN FINDING (known_findings.json, DESIGN.md §4): outside that class the carried-over generics can be
     ill-formed although the user's own impl is fine - `impl<T: Clone + Wt<Self>> Add for &G<T>`: *)
 Theorem C09_self_expansion_ref_refuted :
@@ -134,3 +156,5 @@ Print Assumptions C09_assign_from_op.
 Print Assumptions C09_self_expansion_well_formed.
 Print Assumptions C09_generics_without_Self_carry_over.
 Print Assumptions C09_self_expansion_ref_refuted.
+Print Assumptions C09_self_expansion_eliminates_Self.
+Print Assumptions C09_self_expansion_idempotent.
